@@ -23,6 +23,9 @@ type modInfo struct {
 	closedAll map[*ssa.Function]bool
 	graph  *effGraph
 	namer  *VC
+	names  []string
+	bits   map[*ssa.Function][]uint64
+	allBits map[*ssa.Function]bool
 }
 
 func (c *Ctx) modsets() *modInfo {
@@ -214,33 +217,96 @@ func (m *modInfo) scan(c *Ctx, f *ssa.Function) {
 	}
 }
 
-// closure computes the transitive may-write set of f.
+// closure returns the transitive may-write set of f.  All sets are computed
+// together, once, by a worklist fixpoint over the reversed call graph with
+// bit sets (one bit per heap-array name).
 func (m *modInfo) closure(c *Ctx, f *ssa.Function) (map[string]bool, bool) {
+	if m.bits == nil {
+		m.solve()
+	}
 	if s, ok := m.closed[f]; ok {
 		return s, m.closedAll[f]
 	}
-	seen := map[*ssa.Function]bool{f: true}
-	work := []*ssa.Function{f}
 	out := map[string]bool{}
-	all := false
-	for len(work) > 0 {
-		g := work[len(work)-1]
-		work = work[:len(work)-1]
-		if m.all[g] {
-			all = true
-			break
-		}
-		for n := range m.direct[g] {
-			out[n] = true
-		}
-		for _, t := range m.graph.succ[g] {
-			if !seen[t] {
-				seen[t] = true
-				work = append(work, t)
+	if b, ok := m.bits[f]; ok {
+		for i, w := range b {
+			for j := 0; j < 64; j++ {
+				if w&(1<<uint(j)) != 0 {
+					out[m.names[i*64+j]] = true
+				}
 			}
 		}
 	}
 	m.closed[f] = out
-	m.closedAll[f] = all
-	return out, all
+	m.closedAll[f] = m.allBits[f]
+	return out, m.allBits[f]
+}
+
+func (m *modInfo) solve() {
+	idx := map[string]int{}
+	for _, d := range m.direct {
+		for n := range d {
+			if _, ok := idx[n]; !ok {
+				idx[n] = len(m.names)
+				m.names = append(m.names, n)
+			}
+		}
+	}
+	words := (len(m.names) + 63) / 64
+	m.bits = map[*ssa.Function][]uint64{}
+	m.allBits = map[*ssa.Function]bool{}
+	pred := map[*ssa.Function][]*ssa.Function{}
+	nodes := map[*ssa.Function]bool{}
+	for f, ss := range m.graph.succ {
+		nodes[f] = true
+		for _, t := range ss {
+			nodes[t] = true
+			pred[t] = append(pred[t], f)
+		}
+	}
+	for f := range m.direct {
+		nodes[f] = true
+	}
+	for f := range m.all {
+		nodes[f] = true
+	}
+	var work []*ssa.Function
+	for f := range nodes {
+		b := make([]uint64, words)
+		for n := range m.direct[f] {
+			i := idx[n]
+			b[i/64] |= 1 << uint(i%64)
+		}
+		m.bits[f] = b
+		m.allBits[f] = m.all[f]
+		work = append(work, f)
+	}
+	inWork := map[*ssa.Function]bool{}
+	for _, f := range work {
+		inWork[f] = true
+	}
+	for len(work) > 0 {
+		g := work[len(work)-1]
+		work = work[:len(work)-1]
+		inWork[g] = false
+		gb := m.bits[g]
+		for _, p := range pred[g] {
+			pb := m.bits[p]
+			changed := false
+			for i := range gb {
+				if n := pb[i] | gb[i]; n != pb[i] {
+					pb[i] = n
+					changed = true
+				}
+			}
+			if m.allBits[g] && !m.allBits[p] {
+				m.allBits[p] = true
+				changed = true
+			}
+			if changed && !inWork[p] {
+				inWork[p] = true
+				work = append(work, p)
+			}
+		}
+	}
 }
